@@ -89,7 +89,16 @@ KidD == { LI, HSeq("list", StrH), HSeq("list", BoolH), HTupF(<<IntH, StrH>>), HS
 DeepT == { HSeq(s, k) : s \in {"list", "Sequence", "tuple"}, k \in KidD } \cup { HMap("dict", StrH, k) : k \in KidD }
          \cup { HTupF(<<k, StrH>>) : k \in {LI, AnnI, AnnS, U(IntH, NoneH), HSeq("tuple", IntH)} }
 
-HintSet == Leaves \cup SeqQ \cup ReitQ \cup QuasiQ \cup MapQ \cup TupQ \cup UnionQ \cup DeepQ
+\* repr twins: distinct hints with one repr() and different meanings (same-named TypeVars with different bounds /
+\* constraints, same-named NewTypes over different bases, classes made by one factory), bare and nested
+TwTI == Named(HTVar("bound", <<IntH>>), 1)     TwTS == Named(HTVar("bound", <<StrH>>), 1)
+TwCI == Named(HTVar("constr", <<IntH, NoneH>>), 2)   TwCS == Named(HTVar("constr", <<StrH, BoolH>>), 2)
+TwNI == Named(HNew("int"), 3)                  TwNS == Named(HNew("str"), 3)
+TwKI == HCls("K:int")                          TwKS == HCls("K:str")
+Twins == {TwTI, TwTS, TwCI, TwCS, TwNI, TwNS, TwKI, TwKS,
+          HSeq("list", TwTI), HSeq("list", TwTS), U(TwNI, NoneH), U(TwNS, NoneH)}
+
+HintSet == Twins \cup Leaves \cup SeqQ \cup ReitQ \cup QuasiQ \cup MapQ \cup TupQ \cup UnionQ \cup DeepQ
            \cup (IF Tier = "quick" THEN {}
                  ELSE SeqT \cup ReitT \cup QuasiT \cup MapT \cup TupT \cup UnionT \cup UnionT2 \cup DeepT)
 HintSeq == TLCEval(SetToSeq(HintSet))
@@ -99,32 +108,47 @@ HS == 1..NHint
 (* ----------------------------------------------------------- state machine *)
 \* st 0 -> 1 (a chunk of hints) -> 2 (one hint: its row of the relation is computed, the laws
 \*      that need one row are evaluated) -> 3 (TypeHint(h): doormeta.__call__) -> 4 (TypeHint(h) again)
+\*      -> 5 (TypeHint(h2) for the repr twin h2 of h, if it has one, in the same process)
 \* The laws over several rows (transitivity, == / hash) are checked by MC_SubhintLaws.tla on the
 \* matrix assembled from the rows this module emits.
 CH == 4
+\* the repr twin of hint i (0: none)
+TwinIx == TLCEval([i \in HS |-> IF \E j \in HS : j # i /\ ReprOf(HintSeq[j]) = ReprOf(HintSeq[i])
+                               THEN CHOOSE j \in HS : j # i /\ ReprOf(HintSeq[j]) = ReprOf(HintSeq[i]) ELSE 0])
+\* the key discipline of the wrapper cache: the hint itself (its == / hash: distinct abstract hints are unequal
+\* hints), or - spec mutant "repr_key" - its repr()
+Key(i) == IF "repr_key" \in Legacy THEN ReprOf(HintSeq[i]) ELSE HintSeq[i]
+NoW == [id |-> 0, h |-> 0]
 VARIABLES st, ia,
           row,                    \* [j |-> IsSub(Legacy, HintSeq[ia], HintSeq[j])]
-          cache, made, w1, w2     \* the wrapper cache of doormeta: hint -> wrapper id, wrappers made, two results
-vars == <<st, ia, row, cache, made, w1, w2>>
-Init == st = 0 /\ ia = 0 /\ row = << >> /\ cache = << >> /\ made = 0 /\ w1 = 0 /\ w2 = 0
+          cache, made,            \* the wrapper cache of doormeta: key -> wrapper; wrappers made
+          w1, w2, w3              \* wrappers returned: [id, h = index of the hint the wrapper was built from]
+vars == <<st, ia, row, cache, made, w1, w2, w3>>
+Init == st = 0 /\ ia = 0 /\ row = << >> /\ cache = << >> /\ made = 0 /\ w1 = NoW /\ w2 = NoW /\ w3 = NoW
 Chunk == /\ st = 0 /\ st' = 1
          /\ ia' \in { 1 + k * CH : k \in 0 .. ((NHint - 1) \div CH) }
-         /\ UNCHANGED <<row, cache, made, w1, w2>>
+         /\ UNCHANGED <<row, cache, made, w1, w2, w3>>
 PickHint == /\ st = 1 /\ st' = 2
             /\ ia' \in { j \in ia .. (ia + CH - 1) : j <= NHint }
             /\ row' = [j \in HS |-> IsSub(Legacy, HintSeq[ia'], HintSeq[j])]
-            /\ UNCHANGED <<cache, made, w1, w2>>
+            /\ UNCHANGED <<cache, made, w1, w2, w3>>
 \* _TypeHintMetaclass.__call__: _HINT_TO_WRAPPER.cache_or_get_cached_func_return_passed_arg(key=hint, ...)
-Hit == "no_wrapper_cache" \notin Legacy /\ ia \in DOMAIN cache
+Hit(i) == "no_wrapper_cache" \notin Legacy /\ Key(i) \in DOMAIN cache
+Fresh(i) == [id |-> made + 1, h |-> i]
 WrapOnce == /\ st = 2 /\ st' = 3
-            /\ IF Hit THEN w1' = cache[ia] /\ UNCHANGED <<cache, made>>
-               ELSE made' = made + 1 /\ w1' = made + 1 /\ cache' = (ia :> (made + 1)) @@ cache
-            /\ UNCHANGED <<ia, row, w2>>
+            /\ IF Hit(ia) THEN w1' = cache[Key(ia)] /\ UNCHANGED <<cache, made>>
+               ELSE made' = made + 1 /\ w1' = Fresh(ia) /\ cache' = (Key(ia) :> Fresh(ia)) @@ cache
+            /\ UNCHANGED <<ia, row, w2, w3>>
 WrapAgain == /\ st = 3 /\ st' = 4
-             /\ IF Hit THEN w2' = cache[ia] /\ UNCHANGED <<cache, made>>
-                ELSE made' = made + 1 /\ w2' = made + 1 /\ cache' = (ia :> (made + 1)) @@ cache
-             /\ UNCHANGED <<ia, row, w1>>
-Next == Chunk \/ PickHint \/ WrapOnce \/ WrapAgain
+             /\ IF Hit(ia) THEN w2' = cache[Key(ia)] /\ UNCHANGED <<cache, made>>
+                ELSE made' = made + 1 /\ w2' = Fresh(ia) /\ cache' = (Key(ia) :> Fresh(ia)) @@ cache
+             /\ UNCHANGED <<ia, row, w1, w3>>
+WrapTwin == /\ st = 4 /\ TwinIx[ia] # 0 /\ st' = 5
+            /\ LET t == TwinIx[ia] IN
+               IF Hit(t) THEN w3' = cache[Key(t)] /\ UNCHANGED <<cache, made>>
+               ELSE made' = made + 1 /\ w3' = Fresh(t) /\ cache' = (Key(t) :> Fresh(t)) @@ cache
+            /\ UNCHANGED <<ia, row, w1, w2>>
+Next == Chunk \/ PickHint \/ WrapOnce \/ WrapAgain \/ WrapTwin
 Spec == Init /\ [][Next]_vars
 A == HintSeq[ia]
 Active == st = 2
@@ -143,7 +167,17 @@ Sound ==
 \* len / iter / [] / in and .args describe the same children
 Coh_Children == Active => ArgsAreKids(Legacy, A)
 \* TypeHint(h) is TypeHint(h)
-Coh_Singleton == st = 4 => w1 = w2
+Coh_Singleton == st >= 4 => w1 = w2
+\* TypeHint(h).hint is h; wrappers of distinct hints are distinct - also for repr twins wrapped in one process
+Coh_HintIsH == /\ st >= 3 => w1.h = ia
+               /\ st = 5 => (w3.h = TwinIx[ia] /\ w3.id # w1.id)
+\* is_subhint(h2, B) is computed on the wrapper TypeHint(h2): with h wrapped first, it must still be sound for
+\* the objects that fully satisfy the twin h2
+Sound_Twin ==
+  (st = 5 /\ ~HasAny(HintSeq[TwinIx[ia]]) /\ SatKnown(HintSeq[TwinIx[ia]])) =>
+     LET t == HintSeq[TwinIx[ia]]   seen == HintSeq[w3.h]   sat == SatIdx(t) IN
+     \A b \in HS : (IsSub(Legacy, seen, HintSeq[b]) = "T" /\ ~HasAny(HintSeq[b])) =>
+        LET eb == Erase(HintSeq[b]) IN \A j \in sat : SatB(eb, OSeq[j])
 
 (* ---------------------------------------------------------------- rows (R2) *)
 Code(v) == IF v = "T" THEN 1 ELSE IF v = "F" THEN 0 ELSE 2
@@ -156,7 +190,7 @@ Row == LET a == A  hs == HintSeq
            sf == Vec(LegacyFaithful, a) IN
    [t |-> "row", i |-> ia, h |-> a, wk |-> WK(a), origin |-> Origin(a), nkids |-> Len(Kids(a)), nargs |-> ArgsLen(a),
     argskids |-> ArgsAreKids(LegacyFaithful, a), argsign |-> ArgsIgn(LegacyFaithful, a), ign |-> IgnX(LegacyFaithful, a), hasany |-> HasAny(a),
-    judged |-> judged, sat |-> SetToSeq(sat),
+    judged |-> judged, sat |-> SetToSeq(sat), twin |-> TwinIx[ia],
     subF |-> [j \in HS |-> Code(sf[j])],
     subX |-> LET v == Vec(LegacyFixed, a) IN [j \in HS |-> Code(v[j])],
     subI |-> LET v == Vec({}, a) IN [j \in HS |-> Code(v[j])],
